@@ -286,9 +286,7 @@ func checkMain(a []string) int {
 		}
 		violations = append(violations, o.stats.Violation...)
 		vioProps = append(vioProps, o.stats.VioProps...)
-		if len(samples) < 3 {
-			samples = append(samples, o.stats.Samples...)
-		}
+		samples = append(samples, o.stats.Samples...)
 	}
 	wall := time.Since(start).Seconds()
 
@@ -311,8 +309,10 @@ func checkMain(a []string) int {
 		}
 	}
 	sort.Strings(rules)
+	sort.SliceStable(samples, func(i, j int) bool { return len(samples[i]) < len(samples[j]) })
 	if len(samples) > 3 {
-		samples = samples[:3]
+		// the smallest one and two mid-sized ones
+		samples = []json.RawMessage{samples[0], samples[len(samples)/2], samples[len(samples)*3/4]}
 	}
 	sampleVals := make([]interface{}, 0, len(samples))
 	for _, s := range samples {
